@@ -74,7 +74,10 @@ class Twin:
             if isinstance(a, bool) != isinstance(b, bool) and (a not in (0, 1) or b not in (0, 1)): self.dom_ok = False
             if a < 0 or b < 0: self.dom_ok = False         # documented for non-negative operands
             if a >= (1 << self.n) or b >= (1 << self.n): self.dom_ok = False
-            return {"and": a & b, "or": a | b, "xor": a ^ b}[op]
+            res = {"and": a & b, "or": a | b, "xor": a ^ b}[op]
+            # a LinCombBool combined with a 0/1 int stays a LinCombBool in pysnark (Python would give an int)
+            if (isinstance(a, bool) or isinstance(b, bool)) and res in (0, 1): res = bool(res)
+            return res
         if op in ("lt", "le", "eq", "ne", "gt", "ge"):
             if isinstance(a, bool) != isinstance(b, bool) and (a not in (0, 1) or b not in (0, 1)): self.dom_ok = False
             self.fits(a - b); self.fits(b - a)
